@@ -139,7 +139,8 @@ def many_batch(k):
 
 
 def run(tier, res, is_known):
-    depth = 5 if tier == 'quick' else 7
+    depth = 5 if tier == 'quick' else 6      # (depth 7 was completed with the 22-event alphabet of the first build; with labelled
+    # and backdated submissions in the alphabet and creation ranks in the key it no longer fits in an hour)
     res.rule = ('BFS over interleavings of submissions (2 portfolios x 2 assets x buy/sell) with clock updates '
                 'to every instant >= now (open, closed, 14:30:00 / 21:00:00 boundaries, weekend) and quote '
                 'switches; after every transition pending queues, fills of the step (set, order, once, full) '
